@@ -18,7 +18,7 @@ const chain = "l1/l2/l3/l4/l5/l6/l7/l8/S"
 
 // hostProbes are locations on the real root that the alphabet's absolute names
 // would hit if an entry point ever used them verbatim.
-var hostProbes = []string{"/a", "/out2", "/out-evil", "/out.bak", "/" + longSeg, "/aa"}
+var hostProbes = []string{"/a", "/out2", "/out-evil", "/out.bak", "/OUT", "/Out", "/" + longSeg, "/aa"}
 
 type ent struct {
 	Path string `json:"p"`
@@ -172,7 +172,7 @@ func (sb *sandbox) rebuild() {
 	_ = os.Chdir("/")
 	makeRemovable(sb.R)
 	must(os.RemoveAll(sb.R))
-	for _, d := range []string{"out", "out2", "out-evil", "out.bak", "cwd", "tmp", "in/emptyroot", "tree", "outer/out"} {
+	for _, d := range []string{"out", "out2", "out-evil", "out.bak", "OUT", "cwd", "tmp", "in/emptyroot", "tree", "outer/out"} {
 		must(os.MkdirAll(sb.dir(d), 0o755))
 	}
 	// decoys named like the temporary names the code uses
@@ -188,6 +188,8 @@ func (sb *sandbox) rebuild() {
 	put(sb.dir("out2/keep"), "decoy out2/keep\n", 0o644)
 	put(sb.dir("out-evil/keep"), "decoy out-evil/keep\n", 0o644)
 	put(sb.dir("out.bak/keep"), "decoy out.bak/keep\n", 0o644)
+	// case variants of the target's name: OUT exists, Out does not (a newly created sibling shows in S)
+	put(sb.dir("OUT/keep"), "decoy OUT/keep\n", 0o644)
 	// symlink decoys outside every designated directory: dangling ones (a clean-up that walks too far
 	// removes them) and a live one
 	must(os.Symlink("nowhere", sb.dir("dangling")))
@@ -249,7 +251,7 @@ func relS(rp string) (area, rest string) {
 	r := rp[len(chain)+1:]
 	first, tail, _ := strings.Cut(r, "/")
 	switch first {
-	case "out", "out2", "out-evil", "out.bak", "cwd", "tmp", "in", "tree", "outer":
+	case "out", "out2", "out-evil", "out.bak", "OUT", "cwd", "tmp", "in", "tree", "outer":
 		return first, tail
 	}
 	return "S", r
